@@ -7,8 +7,9 @@
 (*    src/datetime.rs (format, the backwards scan of convert_utc_offset, datetime_string's       *)
 (*    filter, one action per strptime attempt) are run on the strings of the five forms.         *)
 (*    Declarative invariant RoundTrip: Parse(Fmt(i, off)) = (i, off) etc.                       *)
-(*    Refinement: the impl-shaped result agrees with the declarative one, except exactly the      *)
-(*    confirmed deviation h41 (time backend: only the full form parses) when Dev_h41 = TRUE.     *)
+(*    Refinement: the impl-shaped result agrees with the declarative one (Dev_h41 = FALSE: the    *)
+(*    code as it is since fix: 4d9b221), except exactly the repaired deviation h41 (time backend: *)
+(*    only the full form parses) when it is seeded back with Dev_h41 = TRUE (MC_Dates_seeded).    *)
 (* With Emit every case is printed once as a REPLAY line (expected strings and parse results     *)
 (* computed by the declarative layer).                                                           *)
 EXTENDS Dates, TLC, Json
